@@ -136,13 +136,34 @@ def _proxy(base, sched, fields, owner):
     return P
 
 
+def _proxy_all(base, sched, owner):
+    """every DATA attribute of the instances (whatever is stored in the instance dictionary) is a pre-emption point"""
+    class P(base):
+        def __getattribute__(self, name):
+            if not name.startswith('__'):
+                if name in object.__getattribute__(self, '__dict__'):
+                    sched.point('R', owner, name, id(self))
+            return base.__getattribute__(self, name)
+
+        def __setattr__(self, name, value):
+            sched.point('W', owner, name, id(self), id(value))
+            base.__setattr__(self, name, value)
+    P.__name__ = base.__name__
+    P.__qualname__ = base.__qualname__
+    return P
+
+
 @contextlib.contextmanager
 def instrumented(sched, two_d=False, extra=()):
     """yields the reporting fitter class; the helper classes are replaced while the context is open"""
     from pybaselines import Baseline, Baseline2D
     import pybaselines._algorithm_setup as S1
     import pybaselines.two_d._algorithm_setup as S2
-    saved = [(S1, '_PolyHelper', S1._PolyHelper), (S2, '_PolyHelper2D', S2._PolyHelper2D)]
+    saved = [(S1, '_PolyHelper', S1._PolyHelper), (S2, '_PolyHelper2D', S2._PolyHelper2D), (S1, 'SplineBasis', S1.SplineBasis),
+             (S2, 'SplineBasis2D', S2.SplineBasis2D)]
+    # the cached spline basis is reachable from the shared fitter: all of its data attributes are pre-emption points
+    S1.SplineBasis = _proxy_all(S1.SplineBasis, sched, 'basis')
+    S2.SplineBasis2D = _proxy_all(S2.SplineBasis2D, sched, 'basis')
     S1._PolyHelper = _proxy(S1._PolyHelper, sched, HELPER_FIELDS | set(extra), 'poly')
     S2._PolyHelper2D = _proxy(S2._PolyHelper2D, sched, HELPER_FIELDS | set(extra), 'poly')
     try:
